@@ -754,6 +754,31 @@ func run(k *kase) (f *fail, calls int) {
 			snaps = append(snaps, snapshot(t))
 		}
 	}
+	// a caller that decodes into ONE Target variable, call after call, and keeps copies of what it got (the http
+	// targeter overwrites every field of the Target it is handed; the JSON targeter merges into a header map it
+	// finds there, by design, and is not driven this way)
+	if k.format == "http" && len(want) >= 2 {
+		tr = vegeta.NewHTTPTargeter(strings.NewReader(k.text), dbody, def)
+		var reused vegeta.Target
+		var kept []vegeta.Target
+		for i := range want {
+			err := tr(&reused)
+			calls++
+			if err != nil {
+				return &fail{"reused-variable:error:" + errClass(err), fmt.Sprintf("call #%d: %v", i+1, err)}, calls
+			}
+			kept = append(kept, reused)
+			for j := range kept {
+				if d := diffFields(&kept[j], want[j].Method, want[j].URL, want[j].Body, want[j].Hdr); len(d) > 0 {
+					what := "target-mismatch"
+					if j < i {
+						what = "earlier-target-changed"
+					}
+					return &fail{"reused-variable:" + what + ":" + strings.Join(d, "+"), fmt.Sprintf("after call #%d the copy kept of target #%d is %s, want %s", i+1, j+1, showTarget(&kept[j]), showExp(want[j]))}, calls
+				}
+			}
+		}
+	}
 	return nil, calls
 }
 
@@ -932,7 +957,7 @@ func TestC14(t *testing.T) {
 	R.Rule = "documents generated from the README grammar: (A) every single target over header-line sequences x body x ALL comment placements (0/1/2 comment lines after every line), (A2) all leading x trailing comment/blank variants, (B) all 2- and 3-target tuples over a rule-built pool of target shapes x all separators (direct / blank / blank-comment-blank ...), (Z) documents with no target, (J) the same specifications rendered as JSON lines in 2-3 styles x blank-line placements, (RT) JSON encoder round trip of every merged target list and of a special-character pool, (thorough: 50-target documents, 8-header targets); each x default header sets {nil, cap==len, len 3 cap 4, other key, ...} x default body {nil, D} x {lazy with re-inspection of every earlier target and the defaults after each call, eager ReadAllTargets}. A case is distinct when (format, mode, document text, defaults, default body) differs and non-trivial when the document has >= 2 targets, or a comment/blank line, or an own header whose key is also a default key"
 	R.Assume("a request line directly after the previous target (no blank line) is only generated after a target that has no header and no body line (the README shows exactly that form); a last line without terminating newline is outside 'well-formed'")
 	R.Assume("header keys and values are compared after trimming blanks around them; keys compared with exact case; a key with zero values equals an absent key")
-	R.Assume("targeters get a fresh Target per call, as ReadAllTargets and the attacker do")
+	R.Assume("targeters get a fresh Target per call, as ReadAllTargets and the attacker do; http documents with >= 2 targets are decoded a second time into one re-used Target variable whose copies are kept")
 	R.Assume("the reference JSON parser is encoding/json; the reference http parser is a line-oriented reading of README.md '-format'; both are checked against the generator's own specification for every document (disagreement = harness fault, not a violation)")
 	R.SampleCap(8)
 
@@ -1446,6 +1471,51 @@ func TestC14(t *testing.T) {
 					R.Violation("http:"+mode+":body-file-content-of-an-earlier-read", map[string]any{"round": round, "file_holds": content, "targets_got_bodies": bodies, "error": fmt.Sprint(err)})
 				}
 			}
+		}
+	}
+	// body paths are the operating system's business: the file a target gets is the one the OS finds under the path
+	// as written (through a symbolic link ".." is the link target's parent, not the link's)
+	{
+		dir := t.TempDir()
+		os.MkdirAll(dir+"/work", 0o755)
+		os.MkdirAll(dir+"/store/current", 0o755)
+		os.WriteFile(dir+"/store/body.bin", []byte("IN-STORE"), 0o644)
+		os.WriteFile(dir+"/work/body.bin", []byte("IN-WORK"), 0o644)
+		os.WriteFile(dir+"/store/current/body.bin", []byte("IN-CURRENT"), 0o644)
+		if err := os.Symlink(dir+"/store/current", dir+"/work/link"); err == nil {
+			for _, path := range []string{dir + "/work/body.bin", dir + "/work/link/body.bin", dir + "/work/link/../body.bin", dir + "//work/./body.bin",
+				dir + "/work/../store/current/../body.bin", dir + "/work/link/../current/body.bin", dir + "/work/link/../../work/body.bin"} {
+				want, rerr := os.ReadFile(path)
+				if rerr != nil {
+					continue
+				}
+				doc := "POST http://a.test/\n@" + path + "\n"
+				for _, mode := range []string{"lazy", "eager"} {
+					tr := vegeta.NewHTTPTargeter(strings.NewReader(doc), nil, nil)
+					var tg vegeta.Target
+					var err error
+					if mode == "eager" {
+						var got []vegeta.Target
+						if got, err = vegeta.ReadAllTargets(tr); err == nil && len(got) == 1 {
+							tg = got[0]
+						} else if err == nil {
+							err = fmt.Errorf("%d targets", len(got))
+						}
+					} else {
+						err = tr(&tg)
+					}
+					R.Eval(1)
+					R.Trans(2)
+					R.Distinct(fmt.Sprint("bodypath", strings.TrimPrefix(path, dir), mode))
+					if err != nil || string(tg.Body) != string(want) {
+						R.Violation("http:"+mode+":body-is-not-the-file-the-path-names", map[string]any{"path_below_the_sandbox": strings.TrimPrefix(path, dir), "layout": "work/link -> store/current; body.bin in work, store and store/current",
+							"file_holds": string(want), "target_got": string(tg.Body), "error": fmt.Sprint(err)})
+					}
+				}
+			}
+			R.Part("http", "body paths through a symbolic link", 7)
+		} else {
+			R.Assume("symbolic links cannot be created here: body paths through links not exercised")
 		}
 	}
 	R.Finish(t)
